@@ -163,6 +163,30 @@ def install_trace_hook():
     _installed["trace"] = True
 
 
+def install_op_hook():
+    """Yield points at OPERATION events: before every primitive call (tracer.find_top_boxed_args is the first
+    thing the primitive wrapper does; the module global is looked up at call time) and after the raw function
+    has produced its value, just before the result is boxed (tracer.new_box)."""
+    if _installed.get("op"):
+        return
+    common.setup_repo()
+    import autograd.tracer as tracer
+
+    orig_find, orig_new_box = tracer.find_top_boxed_args, tracer.new_box
+
+    def find_top_boxed_args(args):
+        SCHED.yield_point("op_before")
+        return orig_find(args)
+
+    def new_box(value, trace, node):
+        SCHED.yield_point("op_after")
+        return orig_new_box(value, trace, node)
+
+    tracer.find_top_boxed_args = find_top_boxed_args
+    tracer.new_box = new_box
+    _installed["op"] = True
+
+
 def install_rule_hook():
     """Yield point before every reverse-mode rule application (inside backward passes)."""
     if _installed.get("rule"):
@@ -407,7 +431,53 @@ def programs():
         hv = SHARED["make_hvp_f5"](x)[0](onp.array([1.0, 2.0, 3.0]) * b)
         return onp.concatenate([onp.ravel(H), onp.ravel(J), hv])
 
-    return {"T1": T1, "T2": T2, "T3": T3, "T4": T4, "T5": T5, "T6": T6, "T7": T7, "T8": T8, "T9": T9, "T10": T10, "T11": T11, "T12": T12, "T13": T13, "T14": T14, "T15": T15, "T16": T16}
+    def T17(a, b):
+        # the flattening helpers (themselves built on make_vjp): flatten a parameter tree, differentiate in
+        # flat coordinates, map the gradient back - on this thread's own tree
+        from autograd.misc.flatten import flatten, flatten_func
+
+        params = {"bias": a * onp.array([0.5, -1.5]), "weights": (b * onp.arange(1.0, 7.0).reshape(2, 3), [a * b])}
+        flat, unflatten = flatten(params)
+        Y()
+        loss = lambda p: anp.sum(anp.sin(p["bias"])) * p["weights"][1][0] + anp.sum(p["weights"][0] ** 2)
+        g = grad(lambda v: loss(unflatten(v)))(flat)
+        Y()
+        ff, unfl, flat0 = flatten_func(lambda p, s: {"l": loss(p) * s, "n": anp.sum(p["bias"])}, params)
+        return onp.concatenate([flat, g, ff(flat0, a), jacobian(lambda v: ff(v, b))(flat0).ravel()])
+
+    def T18(a, b):
+        # real FFTs of equal length whose normalisation / length options differ between threads
+        import autograd.numpy.fft as afft
+
+        norm = "ortho" if b >= 1.0 else None
+        x = onp.array([0.3, -1.2, 0.8, 0.4, -0.6, 1.1]) * a
+        w = onp.array([1.0, 2.0, -1.0, 0.5])
+
+        def f(t):
+            s = afft.rfft(t, norm=norm)
+            Y()
+            return anp.sum(w * anp.abs(s) ** 2) + anp.sum(afft.irfft(s * (1.0 + 0.5j), n=6 if b >= 1.0 else 8, norm=norm) ** 2)
+
+        g = grad(f)(x)
+        Y()
+        return onp.concatenate([g, grad(lambda t: anp.sum(anp.real(afft.rfft(t * b, n=6)[1:3])))(x)])
+
+    def T19(a, b):
+        # parameter LISTS / dicts of this thread's own precision and shapes, read element by element
+        dt = onp.float32 if b >= 1.0 else onp.float64
+        ps = [onp.array([0.5, -1.5, 0.25], dtype=dt) * dt(a), onp.arange(1.0, 1.0 + (4 if b >= 1.0 else 5), dtype=dt) * dt(b)]
+
+        def f(p):
+            u = p[0]
+            Y()
+            v = p[1]
+            return anp.sum(u * u) * anp.sum(anp.sin(v)) + anp.sum(p[0])
+
+        g = grad(f)(ps)
+        d = grad(lambda q: anp.sum(q["k"] ** 2) + q["s"] * 2.0)({"k": ps[1], "s": float(a)})
+        return [g[0], g[1], d["k"], onp.asarray(d["s"])]
+
+    return {"T17": T17, "T18": T18, "T19": T19, "T1": T1, "T2": T2, "T3": T3, "T4": T4, "T5": T5, "T6": T6, "T7": T7, "T8": T8, "T9": T9, "T10": T10, "T11": T11, "T12": T12, "T13": T13, "T14": T14, "T15": T15, "T16": T16}
 
 
 PARAMS = [(2.0, 1.0), (1.5, 0.7), (0.8, 1.3), (1.1, 0.9)]
@@ -452,7 +522,13 @@ def explore(res, cfg, tier, seed, shard, nshard, budget):
             if errors[i] is not None:
                 bad = "thread %d (%s) raised %s: %s (solo run does not raise)" % (i, names[i], type(errors[i]).__name__, str(errors[i])[:200])
                 break
-            if enc(results[i]) != solo[i]:
+            try:
+                er = enc(results[i])
+            except Exception as e:
+                # e.g. a tracer object inside the result: not plain data (the solo run returned plain data)
+                bad = "thread %d (%s) returned a value that is not plain numeric data (%s: %s; tracer inside: %s)" % (i, names[i], type(e).__name__, str(e)[:120], bool(common.find_boxes(results[i])))
+                break
+            if er != solo[i]:
                 bad = "thread %d (%s) obtained %s, solo result %s" % (i, names[i], common.brief(results[i], 160), common.brief(common.dec(solo[i]), 160))
                 break
         if bad:
@@ -510,7 +586,7 @@ def explore(res, cfg, tier, seed, shard, nshard, budget):
 
 def free_running(res, seed, iters, nthreads):
     P = programs()
-    names = ["T1", "T3", "T6", "T2", "T4", "T5", "T7", "T8", "T9", "T11", "T13", "T14", "T15", "T16"]
+    names = ["T1", "T3", "T6", "T2", "T4", "T5", "T7", "T8", "T9", "T11", "T13", "T14", "T15", "T16", "T17", "T18", "T19"]
     reset_shared()
     SHARED["vjp_f4"](onp.ones(6))  # the free-running stress shares closures that have been used once
     old = sys.getswitchinterval()
@@ -588,6 +664,25 @@ def configs(tier):
     cf.append({"progs": ["T15", "T15"], "kinds": ["explicit", "exit_before", "enter_before"], "mode": "random", "n": 300})
     cf.append({"progs": ["T15", "T16"], "kinds": ["explicit"], "mode": "dfs", "budget": 2500})
     cf.append({"progs": ["T16", "T16"], "kinds": ["explicit", "enter_after"], "mode": "random", "n": 200})
+    # helper modules with their own scratch state: flatten, the real-FFT factor helper, container element reads
+    cf.append({"progs": ["T17", "T17"], "kinds": ["explicit", "enter_after"], "mode": "dfs", "budget": 1500})
+    cf.append({"progs": ["T17", "T17"], "kinds": ["enter_before", "exit_after", "explicit"], "mode": "random", "n": 150})
+    cf.append({"progs": ["T17", "T1", "T17"], "kinds": ["line_rules"], "mode": "random", "n": 80})
+    cf.append({"progs": ["T18", "T18"], "kinds": ["explicit"], "mode": "dfs", "budget": 1500})
+    cf.append({"progs": ["T18", "T18"], "kinds": ["explicit", "enter_after", "exit_before"], "mode": "random", "n": 150})
+    cf.append({"progs": ["T18", "T18", "T18"], "kinds": ["line_rules"], "mode": "random", "n": 80})
+    cf.append({"progs": ["T19", "T19"], "kinds": ["explicit", "exit_after"], "mode": "dfs", "budget": 1500})
+    cf.append({"progs": ["T19", "T19"], "kinds": ["line_rules"], "mode": "random", "n": 150})
+    cf.append({"progs": ["T19", "T17", "T18"], "kinds": KALL, "mode": "random", "n": 100})
+    # operation events: a switch before any primitive call / after any raw evaluation, inside or outside traces
+    cf.append({"progs": ["T1", "T1"], "kinds": ["op_before"], "mode": "dfs", "budget": 2000})
+    cf.append({"progs": ["T1", "T4"], "kinds": ["op_after", "enter_after"], "mode": "dfs", "budget": 2000})
+    cf.append({"progs": ["T17", "T17"], "kinds": ["op_before"], "mode": "random", "n": 150})
+    cf.append({"progs": ["T17", "T19"], "kinds": ["op_after", "explicit"], "mode": "random", "n": 150})
+    cf.append({"progs": ["T18", "T18"], "kinds": ["op_before", "op_after"], "mode": "random", "n": 150})
+    cf.append({"progs": ["T19", "T19", "T19"], "kinds": ["op_before", "rule"], "mode": "random", "n": 150})
+    cf.append({"progs": ["T2", "T5", "T6"], "kinds": ["op_before", "op_after"], "mode": "random", "n": 150})
+    cf.append({"progs": ["T13", "T15", "T16"], "kinds": ["op_after", "rule"], "mode": "random", "n": 100})
     cf.append({"progs": ["T5", "T5"], "kinds": ["rule"], "mode": "random", "n": 200})
     cf.append({"progs": ["T5", "T4"], "kinds": ["line_bp"], "mode": "random", "n": 120})
     cf.append({"progs": ["T5", "T5"], "kinds": ["line_rules"], "mode": "random", "n": 200})
@@ -613,6 +708,7 @@ def run_shard(pid, tier, seed, idx, n):
     common.setup_repo()
     install_trace_hook()
     install_rule_hook()
+    install_op_hook()
     res = _new_result()
     cf = configs(tier)
     res["info"]["configs"] = len(cf)
@@ -627,7 +723,7 @@ def run_shard(pid, tier, seed, idx, n):
                 ly.start()
             elif "line_rules" in c["kinds"]:
                 # LINE events inside the derivative rules themselves (shared helper state of a rule module)
-                ly = LineYield(files=("numpy/numpy_vjps.py", "numpy/numpy_jvps.py", "numpy/linalg.py", "numpy/fft.py", "builtins.py"), kind="line_rules")
+                ly = LineYield(files=("numpy/numpy_vjps.py", "numpy/numpy_jvps.py", "numpy/linalg.py", "numpy/fft.py", "builtins.py", "misc/flatten.py"), kind="line_rules")
                 ly.start()
             elif "line_bp" in c["kinds"]:
                 # LINE events inside the backward pass machinery (toposort, backward_pass, add_outgrads)
@@ -655,6 +751,7 @@ def replay(pid, case):
     common.setup_repo()
     install_trace_hook()
     install_rule_hook()
+    install_op_hook()
     res = _new_result()
     if case["kind"] == "schedule":
         cfg = case["cfg"]
